@@ -283,17 +283,14 @@ Proof.
 Qed.
 
 (* LogBase2 on every representable positive argument *)
-Lemma log_base2_err : forall x r, log_base2 x = Ok r -> (bitlen x <= 1144)%Z ->
-  (0 < x)%Z /\ Rabs (bdR r - log2R (bdR x)) <= 3300 * u36.
+Lemma log_base2_err_parts : forall fu m x x1 y1 x2 y2 r, (0 < x)%Z -> (bitlen x <= 1144)%Z ->
+  INR m <= 1000 -> 1 / 2 ^ m <= u36 ->
+  log2_norm_up fu x 0 = Ok (x1, y1) ->
+  log2_norm_down (S (Z.to_nat (Z.log2 x1))) x1 y1 = Ok (x2, y2) ->
+  log2_iter m x2 y2 (5 * 10 ^ 35) = Ok r ->
+  Rabs (bdR r - log2R (bdR x)) <= 3300 * u36.
 Proof.
-  intros x r H Hbits. unfold log_base2 in H.
-  pose proof pow_iters_small as Hpow. pose proof iters_INR as Hit.
-  (* keep the kernel from unfolding the fuel-indexed fixpoints when it re-checks the conversions below *)
-  set (m := max_log2_iterations) in *. clearbody m. set (fu := 120%nat) in *. clearbody fu.
-  destruct (x <=? 0)%Z eqn:E0; [discriminate|]. apply Z.leb_gt in E0. split; [assumption|].
-  destruct (log2_norm_up fu x 0) as [[x1 y1]|] eqn:EU; cbn [bind] in H; [|discriminate].
-  destruct (log2_norm_down _ x1 y1) as [[x2 y2]|] eqn:ED; cbn [bind] in H; [|discriminate].
-  rewrite one_half_val in H. cbn [bind] in H.
+  intros fu m x x1 y1 x2 y2 r E0 Hbits Hit Hpow EU ED H.
   destruct (norm_up_spec _ _ _ _ _ EU E0) as (U1 & U2 & U3 & U4).
   destruct (norm_down_spec _ _ _ _ _ ED U1) as (D1 & D2).
   pose proof u36_pos as Hu.
@@ -305,6 +302,21 @@ Proof.
   apply Rabs_le_inv' in HI. apply Rabs_le_inv' in D2. apply Rabs_le. split; nra.
 Qed.
 
+Lemma bind_ok : forall (A B : Type) (r : result A) (f : A -> result B) b, bind r f = Ok b -> exists a, r = Ok a /\ f a = Ok b.
+Proof. intros A B [a|e] f b H; [exists a; split; [reflexivity|exact H]|discriminate]. Qed.
+
+Lemma log_base2_err : forall x r, log_base2 x = Ok r -> (bitlen x <= 1144)%Z ->
+  (0 < x)%Z /\ Rabs (bdR r - log2R (bdR x)) <= 3300 * u36.
+Proof.
+  intros x r H Hbits. unfold log_base2 in H.
+  destruct (x <=? 0)%Z eqn:E0; [discriminate|]. apply Z.leb_gt in E0. split; [assumption|].
+  apply bind_ok in H. destruct H as ([x1 y1] & EU & H).
+  apply bind_ok in H. destruct H as ([x2 y2] & ED & H).
+  apply bind_ok in H. destruct H as (b & EB & H).
+  rewrite one_half_val in EB. assert (Eb : b = (5 * 10 ^ 35)%Z) by congruence. subst b.
+  exact (log_base2_err_parts _ _ _ _ _ _ _ _ E0 Hbits iters_INR pow_iters_small EU ED H).
+Qed.
+
 (* ---- derived logarithms: Quo by a (stored or computed) base-2 logarithm ---- *)
 
 (* the rounded quotient for operands of any sign *)
@@ -314,10 +326,10 @@ Proof.
   - rewrite Z.opp_involutive. reflexivity.
   - assert (d = 0)%Z by lia. subst. reflexivity.
 Qed.
-Lemma bd_quo_opp_l : forall a b, bd_quo (- a) b = (- bd_quo a b)%Z.
-Proof. intros. unfold bd_quo. rewrite Z.mul_opp_l, Z.quot_opp_l', chop_round_opp. reflexivity. Qed.
-Lemma bd_quo_opp_r : forall a b, bd_quo a (- b) = (- bd_quo a b)%Z.
-Proof. intros. unfold bd_quo. rewrite Z.quot_opp_r', chop_round_opp. reflexivity. Qed.
+Lemma bd_quo_opp_l : forall a b, b <> 0%Z -> bd_quo (- a) b = (- bd_quo a b)%Z.
+Proof. intros. unfold bd_quo. rewrite Z.mul_opp_l, Z.quot_opp_l, chop_round_opp by assumption. reflexivity. Qed.
+Lemma bd_quo_opp_r : forall a b, b <> 0%Z -> bd_quo a (- b) = (- bd_quo a b)%Z.
+Proof. intros. unfold bd_quo. rewrite Z.quot_opp_r, chop_round_opp by assumption. reflexivity. Qed.
 Lemma bdR_opp : forall a, bdR (- a) = - bdR a.
 Proof. intros. unfold bdR. rewrite opp_IZR. ring. Qed.
 
@@ -325,12 +337,12 @@ Lemma bdR_quo_err_signed : forall a b, b <> 0%Z -> Rabs (bdR (bd_quo a b) - bdR 
 Proof.
   assert (Hpos : forall a b, (0 < b)%Z -> Rabs (bdR (bd_quo a b) - bdR a / bdR b) <= u36).
   { intros a b Hb. destruct (Z_le_gt_dec 0 a) as [Ha|Ha]; [apply bdR_quo_err; assumption|].
-    pose proof (bdR_quo_err (- a) b ltac:(lia) Hb) as H. rewrite bd_quo_opp_l, !bdR_opp in H.
+    pose proof (bdR_quo_err (- a) b ltac:(lia) Hb) as H. rewrite bd_quo_opp_l, !bdR_opp in H by lia.
     replace (bdR (bd_quo a b) - bdR a / bdR b) with (- (- bdR (bd_quo a b) - - bdR a / bdR b)).
     2:{ field. pose proof (bdR_pos b Hb). lra. }
     rewrite Rabs_Ropp. exact H. }
   intros a b Hb. destruct (Z_lt_le_dec 0 b) as [Hb'|Hb']; [apply Hpos; assumption|].
-  pose proof (Hpos a (- b)%Z ltac:(lia)) as H. rewrite bd_quo_opp_r, !bdR_opp in H.
+  pose proof (Hpos a (- b)%Z ltac:(lia)) as H. rewrite bd_quo_opp_r, !bdR_opp in H by lia.
   replace (bdR (bd_quo a b) - bdR a / bdR b) with (- (- bdR (bd_quo a b) - bdR a / - bdR b)).
   2:{ field. pose proof (bdR_pos (- b) ltac:(lia)) as Hp. rewrite bdR_opp in Hp. lra. }
   rewrite Rabs_Ropp. exact H.
@@ -446,4 +458,12 @@ Proof.
   intros x base Hx Hb Hb1. unfold custom_base_log.
   destruct (base <=? 0)%Z eqn:E1; [apply Z.leb_le in E1; lia|]. destruct (base =? P36)%Z eqn:E2; [apply Z.eqb_eq in E2; contradiction|].
   cbn [orb]. rewrite log_base2_domain by assumption. reflexivity.
+Qed.
+
+(* the documented accuracy: 32 digits *)
+Lemma log_base2_err_documented : forall x r, log_base2 x = Ok r -> (bitlen x <= 1144)%Z ->
+  Rabs (bdR r - log2R (bdR x)) <= 1 / 10 ^ 32.
+Proof.
+  intros x r H Hb. destruct (log_base2_err x r H Hb) as [_ E]. eapply Rle_trans; [exact E|].
+  rewrite u36_val. interval with (i_prec 200).
 Qed.
